@@ -80,9 +80,9 @@ RunB(mm, bound, ok) ==
 NormAns(aa) == LET vs == VarSeq(C("ans", aa)) IN [j \in 1..Len(aa) |-> NormVars(aa[j], vs)]
 NormBall(bl) == LET x == IF IsF(bl, "error", 2) THEN C2("error", bl.a[1], A("$ctx")) ELSE bl IN NormVars(x, VarSeq(x))
 Outcome(r) == [status |-> r.m.status, ans |-> [j \in 1..Len(r.m.ans) |-> NormAns(r.m.ans[j])],
-               ball |-> NormBall(r.m.ball), steps |-> r.m.steps, ok |-> r.ok]
+               ball |-> NormBall(r.m.ball), balts |-> {NormBall(x) : x \in r.m.balts}, steps |-> r.m.steps, ok |-> r.ok]
 Finished(o) == o.status \in {"done", "exc", "capped"}
-Same(o1, o2) == o1.status = o2.status /\ o1.ans = o2.ans /\ o1.ball = o2.ball
+Same(o1, o2) == o1.status = o2.status /\ o1.ans = o2.ans /\ o1.ball = o2.ball /\ o1.balts = o2.balts
 
 (* variables of an asserted clause are renamed apart from the variables of the query *)
 RECURSIVE Prefix(_, _)
@@ -124,13 +124,16 @@ EvalModes(prog, dyn, q) ==
       unfinished |-> LET u == SelectSeq(modes, LAMBDA x : ~Finished(x.o)) IN [j \in 1..Len(u) |-> u[j].mode],
       allok |-> oS.ok /\ \A j \in 1..Len(modes) : modes[j].o.ok]
 
+(* second clauses: the three of MC_C07's quick tier in both tiers (the thorough tier takes the full body grammar of  *)
+(* MC_C07 for the first clause; with its six second clauses every program would be replayed in eight modes 13 times) *)
+CB8 == ClausesBQ
 Init8 == m = [phase |-> "gen"]
 Gen8 ==
   /\ m.phase = "gen"
   /\ IF Mode = "exh"
      THEN \E ca \in ClausesA : \E q \in Queries :
             \/ m' = [phase |-> "prog", prog |-> <<ca>>, dyn |-> {}, q |-> q]
-            \/ \E cb \in CB : \/ m' = [phase |-> "prog", prog |-> <<ca, cb>>, dyn |-> {}, q |-> q]
+            \/ \E cb \in CB8 : \/ m' = [phase |-> "prog", prog |-> <<ca, cb>>, dyn |-> {}, q |-> q]
                               \/ m' = [phase |-> "prog", prog |-> <<cb, ca>>, dyn |-> {}, q |-> q]
      ELSE m' = [phase |-> "prog", prog |-> RProgram(1), dyn |-> {<<"p2", 2>>}, q |-> RQuery(1)]
 Eval8 == m.phase = "prog" /\ m' = EvalModes(m.prog, m.dyn, m.q)
@@ -143,11 +146,11 @@ Agree ==
     /\ \A j \in 1..Len(m.modes) :
          LET x == m.modes[j] IN (x.mode # "B" \/ ~m.tcut) => Same(x.o, m.oS)
 
-Strip(o) == [status |-> o.status, ans |-> o.ans, ball |-> o.ball]
+Strip(o) == [status |-> o.status, ans |-> o.ans, ball |-> o.ball, balts |-> o.balts]
 Emit8 == m.phase = "res" /\ Finished(m.oS) =>
           PrintT(ToJson([prog |-> m.prog, q |-> m.q, qv |-> m.qv,
                          dynkeys |-> (IF Mode = "sim" THEN << <<"p2", 2>> >> ELSE <<>>),
-                         status |-> m.oS.status, ans |-> m.oS.ans, ball |-> m.oS.ball, steps |-> m.oS.steps,
+                         status |-> m.oS.status, ans |-> m.oS.ans, ball |-> m.oS.ball, balts |-> m.oS.balts, steps |-> m.oS.steps,
                          tcut |-> m.tcut,
                          modes |-> [j \in 1..Len(m.modes) |-> m.modes[j].mode],
                          unfinished |-> m.unfinished,
